@@ -16,6 +16,8 @@ import (
 	"go/token"
 	"go/types"
 	"strings"
+
+	"golang.org/x/tools/go/packages"
 )
 
 func runC11(c *Ctx) {
@@ -55,14 +57,23 @@ func runC11(c *Ctx) {
 		}
 	}
 	parents := c.P.Parents(pk)
-	enclosing := func(n ast.Node) string {
+	enclosingDecl := func(n ast.Node) *ast.FuncDecl {
 		for cur := n; cur != nil; cur = parents[cur] {
 			if fd, ok := cur.(*ast.FuncDecl); ok {
-				return "vaxis." + funcDeclName(fd)
+				return fd
 			}
+		}
+		return nil
+	}
+	enclosing := func(n ast.Node) string {
+		if fd := enclosingDecl(n); fd != nil {
+			return "vaxis." + funcDeclName(fd)
 		}
 		return "vaxis.<package level>"
 	}
+	// code of an unexported function that nothing refers to never runs (typically a helper that the global
+	// pre-normalisation inlined into all of its callers: the copies in the callers are what is judged)
+	dead := c11DeadFuncs(pk)
 
 	// ---- C11.a: every use of screen.buf / rows / cols
 	owners := map[string]bool{"vaxis.(*screen).resize": true, "vaxis.(*screen).setCell": true, "vaxis.(*screen).setStyle": true}
@@ -83,7 +94,12 @@ func runC11(c *Ctx) {
 			fn := enclosing(sel)
 			acc := classifyAccess(info, parents, sel)
 			key := fmt.Sprintf("%s/%s %s via %s", fn, acc.kind, fv.Name(), types.ExprString(sel.X))
+			encl := enclosingDecl(sel)
+			// a single-definition local that stands for the handle (last := vx.screenLast) is looked through
+			viaExpr := c11ResolveLocal(info, encl, sel.X)
 			switch {
+			case encl != nil && dead[encl]:
+				c.ok("C11.a", key, sel.Pos(), "inside an unexported function that is never referenced (dead code)")
 			case fv != fields["buf"]:
 				if acc.kind == "write" && fn != "vaxis.(*screen).resize" {
 					c.bad("C11.a", key, sel.Pos(), "screen.%s is assigned outside resize: len(buf) = rows / len(buf[i]) = cols is no longer an invariant", fv.Name())
@@ -97,7 +113,7 @@ func runC11(c *Ctx) {
 					c.ok("C11.a", key, sel.Pos(), "owner function")
 				}
 			case fn == "vaxis.(*Vaxis).render":
-				via := types.ExprString(sel.X)
+				via := types.ExprString(viaExpr)
 				switch {
 				case acc.kind == "escape":
 					c.bad("C11.a", key, sel.Pos(), "render aliases the screen buffer: %s", acc.why)
@@ -109,7 +125,7 @@ func runC11(c *Ctx) {
 			default:
 				if acc.kind == "read" {
 					c.ok("C11.a", key, sel.Pos(), "read-only use (len/index/range) outside the owners")
-				} else if acc.kind == "write" && canonPath(info, sel.X) == "Vaxis.screenLast" {
+				} else if acc.kind == "write" && canonPath(info, viaExpr) == "Vaxis.screenLast" {
 					// the last-frame copy is the renderer's own bookkeeping, not the application's screen
 					c.ok("C11.a", key, sel.Pos(), "store into the renderer's last-frame copy (helper of render)")
 				} else {
@@ -223,6 +239,10 @@ func runC11(c *Ctx) {
 	for _, p := range c.P.All {
 		pinfo := p.TypesInfo
 		par := c.P.Parents(p)
+		pdead := dead
+		if p != pk {
+			pdead = c11DeadFuncs(p)
+		}
 		for _, file := range p.Syntax {
 			ast.Inspect(file, func(n ast.Node) bool {
 				sel, ok := n.(*ast.SelectorExpr)
@@ -234,9 +254,11 @@ func runC11(c *Ctx) {
 					return true
 				}
 				encl := ""
+				var enclFd *ast.FuncDecl
 				for cur := ast.Node(sel); cur != nil; cur = par[cur] {
 					if fd, ok := cur.(*ast.FuncDecl); ok {
 						encl = shortPkg(p.PkgPath) + "." + funcDeclName(fd)
+						enclFd = fd
 						break
 					}
 				}
@@ -251,6 +273,8 @@ func runC11(c *Ctx) {
 						call, isCall := par[sel].(*ast.CallExpr)
 						key := fmt.Sprintf("%s/calls screen.%s", encl, m.Name())
 						switch {
+						case enclFd != nil && pdead[enclFd]:
+							c.ok("C11.d", key, sel.Pos(), "inside an unexported function that is never referenced (dead code)")
 						case !isCall || call.Fun != sel:
 							c.bad("C11.d", key, sel.Pos(), "screen.%s is taken as a method value; callers can no longer be enumerated", m.Name())
 						case encl != want:
@@ -266,7 +290,9 @@ func runC11(c *Ctx) {
 					use := handleUse(pinfo, par, sel)
 					key := fmt.Sprintf("%s/%s %s", encl, fv.Name(), use)
 					switch {
-					case strings.HasPrefix(use, "call "), use == "buffer access":
+					case enclFd != nil && pdead[enclFd]:
+						c.ok("C11.e", key, sel.Pos(), "inside an unexported function that is never referenced (dead code)")
+					case strings.HasPrefix(use, "call "), use == "buffer access", use == "local alias used in place":
 						c.ok("C11.e", key, sel.Pos(), "handle used in place")
 					case use == "assign" && (encl == "vaxis.New"):
 						c.ok("C11.e", key, sel.Pos(), "constructor installs the screen")
@@ -520,10 +546,6 @@ func c11Window(c *Ctx, fi *FuncInfo, info *types.Info, self, screenMethod string
 	if params[0].Name() == "row" || params[1].Name() == "col" {
 		colP, rowP = params[1], params[0]
 	}
-	recvT := Term{ID: fmt.Sprintf("%p", recvObj), Disp: recvObj.Name()}
-	fld := func(n string) Term { return Term{ID: recvT.ID + "." + n, Disp: recvT.Disp + "." + n} }
-	colT := Term{ID: fmt.Sprintf("%p", colP), Disp: colP.Name()}
-	rowT := Term{ID: fmt.Sprintf("%p", rowP), Disp: rowP.Name()}
 
 	calls := g.Calls(func(fn *types.Func, call *ast.CallExpr) bool {
 		if fn == nil {
@@ -535,90 +557,355 @@ func c11Window(c *Ctx, fi *FuncInfo, info *types.Info, self, screenMethod string
 	if len(calls) < 2 {
 		c.undecided("C11.c", name+"/delegation", fd.Pos(), "expected a delegating call to the screen and one to the parent window, found %d", len(calls))
 	}
+
+	// Symbolic evaluation of every path (c11sym.go): the obligations are about the ENTRY values of col, row and of
+	// the receiver's fields, whatever names and intermediate assignments the code uses on the way to the hand-off.
+	ex := c11NewExec(c.P, info, fi.Pkg.Types)
+	fr := &c11Frame{g: g, fd: fd, assigned: c11Assigned(info, fd.Body), addr: c11AddrTaken(info, fd.Body)}
+	recvRoot := fmt.Sprintf("%p", recvObj)
+	ex.disp[recvRoot] = recvObj.Name()
+	sym := func(o types.Object) c11Lin {
+		s := fmt.Sprintf("%p", o)
+		ex.disp[s] = o.Name()
+		return c11Sym(s)
+	}
+	fld := func(n string) c11Lin {
+		s := recvRoot + "." + n
+		ex.disp[s] = recvObj.Name() + "." + n
+		return c11Sym(s)
+	}
+	col0, row0 := sym(colP), sym(rowP)
+	one := c11Const(1)
+	type verdict struct {
+		reached int
+		fail    map[string]string // obligation key -> reason on the first failing path
+		order   []string
+		okWhy   map[string]string
+		pos     map[string]token.Pos
+	}
+	byLoc := map[Loc][]*ast.CallExpr{}
+	verdicts := map[*ast.CallExpr]*verdict{}
 	for _, h := range calls {
 		call := h.Node.(*ast.CallExpr)
-		fn := calleeOf(info, call)
-		toScreen := repoName(fn) == "vaxis.screen."+screenMethod
-		tag := "parent"
-		if toScreen {
-			tag = "screen"
-		}
-		facts := g.FactsAt(h.Loc)
-		needs := []struct {
-			what string
-			ok   bool
-		}{
-			{"col >= 0", impliesLin(facts, Term{}, colT, 0)},
-			{"col < Width", impliesLin(facts, colT, fld("Width"), -1)},
-			{"row >= 0", impliesLin(facts, Term{}, rowT, 0)},
-			{"row < Height", impliesLin(facts, rowT, fld("Height"), -1)},
-		}
-		for _, nd := range needs {
-			key := fmt.Sprintf("%s/->%s guarded by %s", name, tag, nd.what)
-			if nd.ok {
-				c.ok("C11.c", key, call.Pos(), "dominating facts: %s", atomsString(facts))
+		byLoc[h.Loc] = append(byLoc[h.Loc], call)
+		verdicts[call] = &verdict{fail: map[string]string{}, okWhy: map[string]string{}, pos: map[string]token.Pos{}}
+	}
+	fr.onNode = func(st *c11State, l Loc, _ ast.Node) {
+		for _, call := range byLoc[l] {
+			v := verdicts[call]
+			v.reached++
+			note := func(key string, pos token.Pos, ok bool, okWhy, badWhy string) {
+				if _, seen := v.pos[key]; !seen {
+					v.pos[key] = pos
+					v.order = append(v.order, key)
+					v.okWhy[key] = okWhy
+				}
+				if !ok {
+					if _, had := v.fail[key]; !had {
+						v.fail[key] = badWhy
+					}
+				}
+			}
+			fn := calleeOf(info, call)
+			toScreen := repoName(fn) == "vaxis.screen."+screenMethod
+			tag := "parent"
+			if toScreen {
+				tag = "screen"
+			}
+			factsStr := ex.factsString(st.facts)
+			needs := []struct {
+				what   string
+				target c11Lin // target <= 0
+			}{
+				{"col >= 0", col0.scale(-1)},
+				{"col < Width", col0.add(fld("Width"), -1).add(one, 1)},
+				{"row >= 0", row0.scale(-1)},
+				{"row < Height", row0.add(fld("Height"), -1).add(one, 1)},
+			}
+			for _, nd := range needs {
+				key := fmt.Sprintf("%s/->%s guarded by %s", name, tag, nd.what)
+				note(key, call.Pos(), c11Implies(st.facts, nd.target), "holds on every path; facts on the first one: "+factsStr,
+					fmt.Sprintf("the delegating call is reachable without %s (facts in force: %s): a cell outside the window is accepted", nd.what, factsStr))
+			}
+			// arguments: callee's (col,row) parameters receive col+Column,row+Row (entry values)
+			sig := fn.Type().(*types.Signature)
+			if sig.Params().Len() < 2 || len(call.Args) < 2 {
+				note(name+"/->"+tag+" args", call.Pos(), false, "", "unexpected callee signature")
+				continue
+			}
+			for i := 0; i < 2; i++ {
+				pn := sig.Params().At(i).Name()
+				wantP, want0, wantF := colP, col0, "Column"
+				if pn == "row" || (pn != "col" && i == 1) {
+					wantP, want0, wantF = rowP, row0, "Row"
+				}
+				got := ex.evalInt(st, call.Args[i])
+				key := fmt.Sprintf("%s/->%s arg %s = %s + %s.%s", name, tag, pn, wantP.Name(), recvObj.Name(), wantF)
+				shown := types.ExprString(call.Args[i])
+				if val := ex.linString(got); val != shown {
+					shown += " (= " + val + ")"
+				}
+				note(key, call.Args[i].Pos(), got.equal(want0.add(fld(wantF), 1)), "offset added exactly once",
+					fmt.Sprintf("argument is %s, the clipping argument needs exactly %s + %s.%s: an accepted cell does not land at origin plus offset", shown, wantP.Name(), recvObj.Name(), wantF))
+			}
+			// receiver of the delegating call and the Parent test
+			sel, _ := unparen(call.Fun).(*ast.SelectorExpr)
+			var rp c11Path
+			if sel != nil {
+				rp = ex.resolvePath(st, sel.X)
+			}
+			parentKey := recvRoot + ".Parent"
+			ex.disp[parentKey] = recvObj.Name() + ".Parent"
+			if toScreen {
+				okRecv := rp.ok && rp.root == recvRoot && len(rp.parts) == 2 && rp.parts[0] == "Vx" && rp.parts[1] == "screenNext"
+				note(name+"/->screen receiver is win.Vx.screenNext", call.Pos(), okRecv, "draws into the next-frame screen of its own Vaxis", "the root window does not draw into win.Vx.screenNext")
+				note(name+"/->screen only when Parent == nil", call.Pos(), c11ImpliesNil(st.facts, parentKey, true), "root windows only", "a window with a parent writes to the screen directly, bypassing the ancestors' clipping")
 			} else {
-				c.bad("C11.c", key, call.Pos(), "the delegating call is reachable without %s (facts in force: %s): a cell outside the window is accepted", nd.what, atomsString(facts))
+				okRecv := rp.ok && rp.root == recvRoot && len(rp.parts) == 1 && rp.parts[0] == "Parent"
+				note(name+"/->parent receiver is win.Parent", call.Pos(), okRecv, "delegates to its own parent", "the window delegates to something other than its parent")
+				note(name+"/->parent only when Parent != nil", call.Pos(), c11ImpliesNil(st.facts, parentKey, false), "non-root windows only", "delegation to a nil parent is reachable")
 			}
 		}
-		// arguments: callee's (col,row) parameters receive col+Column,row+Row
-		sig := fn.Type().(*types.Signature)
-		if sig.Params().Len() < 2 || len(call.Args) < 2 {
-			c.undecided("C11.c", name+"/->"+tag+" args", call.Pos(), "unexpected callee signature")
+	}
+	ex.run(c11NewState(), fr, g.Blocks[0], 0, nil)
+	if ex.overflow {
+		c.undecided("C11.c", name+"/paths", fd.Pos(), "too many paths for the symbolic evaluation of %s", name)
+		return
+	}
+	for _, h := range calls {
+		call := h.Node.(*ast.CallExpr)
+		v := verdicts[call]
+		if v.reached == 0 {
+			c.undecided("C11.c", name+"/delegation reachable", call.Pos(), "no feasible path reaches the delegating call %s", types.ExprString(call.Fun))
 			continue
 		}
-		for i := 0; i < 2; i++ {
-			pn := sig.Params().At(i).Name()
-			wantP, wantF := colP, "Column"
-			if pn == "row" || (pn != "col" && i == 1) {
-				wantP, wantF = rowP, "Row"
-			}
-			okArg := isSumOf(info, call.Args[i], wantP, recvObj, wantF)
-			key := fmt.Sprintf("%s/->%s arg %s = %s + %s.%s", name, tag, pn, wantP.Name(), recvObj.Name(), wantF)
-			if okArg {
-				c.ok("C11.c", key, call.Args[i].Pos(), "offset added exactly once")
+		for _, key := range v.order {
+			if why, bad := v.fail[key]; bad {
+				c.bad("C11.c", key, v.pos[key], "%s", why)
 			} else {
-				c.bad("C11.c", key, call.Args[i].Pos(), "argument is %s, the clipping argument needs exactly %s + %s.%s: an accepted cell does not land at origin plus offset", types.ExprString(call.Args[i]), wantP.Name(), recvObj.Name(), wantF)
+				c.ok("C11.c", key, v.pos[key], "%s", v.okWhy[key])
 			}
-		}
-		// receiver of the delegating call and the Parent test
-		sel, _ := call.Fun.(*ast.SelectorExpr)
-		parentT := fld("Parent")
-		if toScreen {
-			okRecv := sel != nil && types.ExprString(stripRecv(sel.X)) == "Vx.screenNext" && rootObj(info, sel.X) == recvObj
-			c.check(okRecv, "C11.c", name+"/->screen receiver is win.Vx.screenNext", call.Pos(), "draws into the next-frame screen of its own Vaxis", "the root window does not draw into win.Vx.screenNext")
-			c.check(impliesNil(facts, parentT, true), "C11.c", name+"/->screen only when Parent == nil", call.Pos(), "root windows only", "a window with a parent writes to the screen directly, bypassing the ancestors' clipping")
-		} else {
-			okRecv := sel != nil && types.ExprString(stripRecv(sel.X)) == "Parent" && rootObj(info, sel.X) == recvObj
-			c.check(okRecv, "C11.c", name+"/->parent receiver is win.Parent", call.Pos(), "delegates to its own parent", "the window delegates to something other than its parent")
-			c.check(impliesNil(facts, parentT, false), "C11.c", name+"/->parent only when Parent != nil", call.Pos(), "non-root windows only", "delegation to a nil parent is reachable")
 		}
 	}
-	// the receiver's geometry and the coordinates are not modified before delegation
-	objs := map[types.Object]bool{recvObj: true, colP: true, rowP: true}
-	mod := g.Find(func(n ast.Node) bool { return assignsAny(info, n, objs) })
-	c.check(len(mod) == 0, "C11.c", name+"/coordinates and window not reassigned", fd.Pos(), "col,row and the receiver are never assigned", "col/row or the receiver is modified inside "+name)
+	// The symbolic evaluation follows plain assignments. A write through a pointer to, or a closure over, the
+	// coordinates or the receiver makes them unknown at the next opaque call / indirect write, which fails the
+	// obligations above if (and only if) that happens before a hand-off; so this instance is informational.
+	hidden := false
+	for _, o := range []types.Object{recvObj, colP, rowP} {
+		hidden = hidden || fr.addr[o]
+	}
+	if !hidden {
+		c.ok("C11.c", name+"/coordinates and window changed by plain assignments only", fd.Pos(), "no address of col,row or the receiver is taken and no closure captures them")
+	}
 }
 
-// isSumOf: e == p + recv.field (either operand order)
-func isSumOf(info *types.Info, e ast.Expr, p types.Object, recv types.Object, field string) bool {
-	b, ok := unparen(e).(*ast.BinaryExpr)
-	if !ok || b.Op != token.ADD {
+// c11DeadFuncs: the unexported functions and methods of pk that nothing refers to (fixpoint: references from
+// dead functions do not count). A method is kept alive by an interface of the package that declares its name.
+func c11DeadFuncs(pk *packages.Package) map[*ast.FuncDecl]bool {
+	info := pk.TypesInfo
+	type cand struct {
+		fd  *ast.FuncDecl
+		obj types.Object
+	}
+	var cands []cand
+	ifaceNames := map[string]bool{}
+	for _, f := range pk.Syntax {
+		ast.Inspect(f, func(n ast.Node) bool {
+			if it, ok := n.(*ast.InterfaceType); ok && it.Methods != nil {
+				for _, m := range it.Methods.List {
+					for _, nm := range m.Names {
+						ifaceNames[nm.Name] = true
+					}
+				}
+			}
+			return true
+		})
+		for _, d := range f.Decls {
+			fd, ok := d.(*ast.FuncDecl)
+			if !ok || fd.Body == nil || ast.IsExported(fd.Name.Name) || fd.Name.Name == "init" || fd.Name.Name == "main" || fd.Name.Name == "_" {
+				continue
+			}
+			if o := info.Defs[fd.Name]; o != nil {
+				cands = append(cands, cand{fd, o})
+			}
+		}
+	}
+	// uses by enclosing declaration
+	type use struct {
+		obj  types.Object
+		from *ast.FuncDecl // nil: package level
+	}
+	var uses []use
+	for _, f := range pk.Syntax {
+		for _, d := range f.Decls {
+			fd, _ := d.(*ast.FuncDecl)
+			ast.Inspect(d, func(n ast.Node) bool {
+				if id, ok := n.(*ast.Ident); ok {
+					if o := info.Uses[id]; o != nil {
+						if fn, ok := o.(*types.Func); ok {
+							uses = append(uses, use{fn.Origin(), fd})
+						}
+					}
+				}
+				return true
+			})
+		}
+	}
+	dead := map[*ast.FuncDecl]bool{}
+	for changed := true; changed; {
+		changed = false
+		for _, cd := range cands {
+			if dead[cd.fd] {
+				continue
+			}
+			if cd.fd.Recv != nil && ifaceNames[cd.fd.Name.Name] {
+				continue
+			}
+			live := false
+			for _, u := range uses {
+				if u.obj == cd.obj && (u.from == nil || (!dead[u.from] && u.from != cd.fd)) {
+					live = true
+					break
+				}
+			}
+			if !live {
+				dead[cd.fd] = true
+				changed = true
+			}
+		}
+	}
+	return dead
+}
+
+// c11ResolveLocal: if e is a local variable of fd with exactly one definition `x := <path>` (or var x = <path>)
+// and no other assignment and no address taken, return <path> (recursively); otherwise e.
+func c11ResolveLocal(info *types.Info, fd *ast.FuncDecl, e ast.Expr) ast.Expr {
+	for depth := 0; depth < 4 && fd != nil; depth++ {
+		id, ok := unparen(e).(*ast.Ident)
+		if !ok {
+			return e
+		}
+		obj, ok := info.ObjectOf(id).(*types.Var)
+		if !ok || obj.IsField() || obj.Pos() < fd.Body.Pos() || obj.Pos() >= fd.Body.End() {
+			return e
+		}
+		var def ast.Expr
+		ndef, spoiled := 0, false
+		ast.Inspect(fd.Body, func(n ast.Node) bool {
+			switch s := n.(type) {
+			case *ast.AssignStmt:
+				for i, l := range s.Lhs {
+					if lid, ok := l.(*ast.Ident); ok && info.ObjectOf(lid) == obj {
+						ndef++
+						if len(s.Lhs) == len(s.Rhs) && (s.Tok == token.DEFINE || s.Tok == token.ASSIGN) {
+							def = s.Rhs[i]
+						} else {
+							spoiled = true
+						}
+					}
+				}
+			case *ast.ValueSpec:
+				for i, nm := range s.Names {
+					if info.ObjectOf(nm) == obj {
+						ndef++
+						if len(s.Names) == len(s.Values) {
+							def = s.Values[i]
+						} else {
+							spoiled = true
+						}
+					}
+				}
+			case *ast.IncDecStmt:
+				if lid, ok := s.X.(*ast.Ident); ok && info.ObjectOf(lid) == obj {
+					spoiled = true
+				}
+			case *ast.RangeStmt:
+				for _, l := range []ast.Expr{s.Key, s.Value} {
+					if lid, ok := l.(*ast.Ident); ok && info.ObjectOf(lid) == obj {
+						spoiled = true
+					}
+				}
+			case *ast.UnaryExpr:
+				if s.Op == token.AND {
+					if lid, ok := unparen(s.X).(*ast.Ident); ok && info.ObjectOf(lid) == obj {
+						spoiled = true
+					}
+				}
+			}
+			return true
+		})
+		if ndef != 1 || spoiled || def == nil {
+			return e
+		}
+		// the definition must be an access path whose root is not reassigned either (parameters/receivers)
+		switch unparen(def).(type) {
+		case *ast.Ident, *ast.SelectorExpr:
+			e = def
+		default:
+			return e
+		}
+	}
+	return e
+}
+
+// c11AliasInPlace: the local variable defined by id (x := vx.screenNext) is used only as the receiver of method
+// calls, for field access (x.buf...) or in nil comparisons: the handle does not leave the function through it.
+func c11AliasInPlace(info *types.Info, parents map[ast.Node]ast.Node, id *ast.Ident) bool {
+	obj, ok := info.ObjectOf(id).(*types.Var)
+	if !ok || obj.IsField() || id.Name == "_" {
 		return false
 	}
-	isP := func(x ast.Expr) bool {
-		id, ok := unparen(x).(*ast.Ident)
-		return ok && info.Uses[id] == p
-	}
-	isF := func(x ast.Expr) bool {
-		s, ok := unparen(x).(*ast.SelectorExpr)
-		if !ok || s.Sel.Name != field {
-			return false
+	var fd *ast.FuncDecl
+	for cur := ast.Node(id); cur != nil; cur = parents[cur] {
+		if d, ok := cur.(*ast.FuncDecl); ok {
+			fd = d
+			break
 		}
-		id, ok := s.X.(*ast.Ident)
-		return ok && info.Uses[id] == recv
 	}
-	return (isP(b.X) && isF(b.Y)) || (isF(b.X) && isP(b.Y))
+	if fd == nil || fd.Body == nil || obj.Pos() < fd.Pos() || obj.Pos() >= fd.End() {
+		return false
+	}
+	okAll := true
+	ast.Inspect(fd.Body, func(n ast.Node) bool {
+		u, isId := n.(*ast.Ident)
+		if !isId || info.Uses[u] != obj {
+			return true
+		}
+		switch p := parents[u].(type) {
+		case *ast.SelectorExpr:
+			if p.X == u {
+				if s, ok := info.Selections[p]; ok {
+					if s.Kind() == types.MethodVal {
+						if call, ok := parents[p].(*ast.CallExpr); ok && call.Fun == p {
+							return true
+						}
+					} else if s.Kind() == types.FieldVal {
+						return true // classified by C11.a (buf/rows/cols)
+					}
+				}
+			}
+		case *ast.BinaryExpr:
+			if p.Op == token.EQL || p.Op == token.NEQ {
+				other := p.X
+				if other == ast.Expr(u) {
+					other = p.Y
+				}
+				if isNilExpr(info, unparen(other)) {
+					return true
+				}
+			}
+		case *ast.AssignStmt:
+			// re-assignment of the alias itself (x = ...) is a definition, not a use that leaks
+			for _, l := range p.Lhs {
+				if l == ast.Expr(u) {
+					return true
+				}
+			}
+		}
+		okAll = false
+		return true
+	})
+	return okAll
 }
 
 // handleUse classifies a use of vx.screenNext / vx.screenLast.
@@ -645,7 +932,24 @@ func handleUse(info *types.Info, parents map[ast.Node]ast.Node, sel *ast.Selecto
 				return "assign"
 			}
 		}
+		if len(p.Lhs) == len(p.Rhs) {
+			for i, r := range p.Rhs {
+				if r == sel {
+					if id, ok := p.Lhs[i].(*ast.Ident); ok && c11AliasInPlace(info, parents, id) {
+						return "local alias used in place"
+					}
+				}
+			}
+		}
 		return "copied to a variable"
+	case *ast.ValueSpec:
+		if len(p.Names) == len(p.Values) {
+			for i, r := range p.Values {
+				if r == sel && c11AliasInPlace(info, parents, p.Names[i]) {
+					return "local alias used in place"
+				}
+			}
+		}
 	case *ast.CallExpr:
 		return "passed as argument"
 	case *ast.ReturnStmt:
